@@ -73,7 +73,7 @@ theorem chainGo_good : ∀ (genes : List Gene) (results : List GeneResult) (live
       obtain ⟨ms, hb, hms⟩ := build_good g.domains g.name (hg g (List.mem_cons_self)).1 (hg g (List.mem_cons_self)).2
       rw [hb]
       simp only
-      have happ : ∀ r ∈ results ++ [(⟨g.name, g.strand, g.region, ms, g.index⟩ : GeneResult)], ∀ m ∈ r.modules, Good m := by
+      have happ : ∀ r ∈ results ++ [(⟨g.name, g.strand, g.region, ms, g.index, ms.isEmpty⟩ : GeneResult)], ∀ m ∈ r.modules, Good m := by
         intro r hrm
         rcases List.mem_append.mp hrm with h | h
         · exact hr r h
